@@ -578,6 +578,72 @@ def _builtin_tables(h, scopes):
                ", ".join(f"({_lean_str(k)}, {_lean_str(v)})" for k, v in wp) + "]\n")
     return out
 
+def _cd_getopts(h, consts, scopes):
+    """the variable writes of cd (cd.rs main, cd/assign.rs) and getopts (getopts/report.rs)"""
+    cd = _strip_comments(h.read("yash-builtin/src/cd.rs")).split("#[cfg(test)]")[0]
+    m = re.search(r"pub\s+const\s+EXIT_STATUS_ASSIGN_ERROR\s*:\s*ExitStatus\s*=\s*ExitStatus\(\s*(\d+)\s*\)\s*;", cd)
+    if not m:
+        h.fail("variable: cd.rs: `pub const EXIT_STATUS_ASSIGN_ERROR: ExitStatus = ExitStatus(N);` not found")
+    status = int(m.group(1))
+    calls = [(mm.start(), mm.group(1)) for mm in re.finditer(r"assign::(set_oldpwd|set_pwd)\(", cd)]
+    if sorted(c[1] for c in calls) != ["set_oldpwd", "set_pwd"]:
+        h.fail(f"variable: cd.rs main: expected one call each of assign::set_oldpwd and assign::set_pwd, found {[c[1] for c in calls]}")
+    order = [c[1] for c in sorted(calls)]
+    if not re.search(r"let\s+result2\s*=\s*assign::" + order[0] + r"\(env,\s*pwd\)\.await\s*;\s*let\s+result3\s*=\s*assign::" + order[1], cd) \
+            or not re.search(r"result1\s*\.\s*max\(\s*result2\s*\)\s*\.\s*max\(\s*result3\s*\)", cd):
+        h.fail("variable: cd.rs main: `let result2 = ..; let result3 = ..; result1.max(result2).max(result3)` not found "
+               "(both assignments must always be attempted)")
+    asg = _strip_comments(h.read("yash-builtin/src/cd/assign.rs")).split("#[cfg(test)]")[0]
+    names = {}
+    for fn in ("set_oldpwd", "set_pwd"):
+        body = h.item_body(asg, r"pub\s+async\s+fn\s+" + fn + r"\b[^{]*?\)\s*->\s*[^{]*", f"cd/assign.rs fn {fn}")
+        mm = re.findall(r"set_variable\(\s*env\s*,\s*(\w+)\s*,", body)
+        if len(mm) != 1:
+            h.fail(f"variable: cd/assign.rs {fn}: expected one set_variable(env, NAME, ..), found {mm}")
+        names[fn] = _resolve(h, consts, mm[0], f"cd/assign.rs {fn}")
+    sv = h.item_body(asg, r"async\s+fn\s+set_variable\b[^{]*?\)\s*->\s*[^{]*", "cd/assign.rs fn set_variable")
+    mm = re.findall(r"get_or_create_variable\(\s*name\s*,\s*(?:Scope::)?(\w+)\s*\)", sv)
+    if len(mm) != 1 or mm[0] not in scopes:
+        h.fail(f"variable: cd/assign.rs set_variable: get_or_create_variable(name, SCOPE): {mm}")
+    pa = sv.find(".assign(")
+    pe = sv.find("return handle_assign_error")
+    px = re.search(r"var\s*\.\s*export\(\s*true\s*\)", sv)
+    if pa < 0 or pe < pa or not px or px.start() < pe:
+        h.fail("variable: cd/assign.rs set_variable: assign / `return handle_assign_error` / var.export(true) not in that order")
+    if "EXIT_STATUS_ASSIGN_ERROR" not in asg:
+        h.fail("variable: cd/assign.rs: handle_assign_error does not report EXIT_STATUS_ASSIGN_ERROR")
+    cd_writes = [(names[o], mm[0]) for o in order]
+    # getopts
+    rp = _strip_comments(h.read("yash-builtin/src/getopts/report.rs")).split("#[cfg(test)]")[0]
+    body = h.item_body(rp, r"pub\s+fn\s+report\b[^{]*?\)\s*->\s*[^{]*", "getopts/report.rs fn report")
+    writes = []
+    for mm2 in re.finditer(r"env\s*\.\s*get_or_create_variable\(\s*([\w.()]+?)\s*,\s*(?:Scope::)?(\w+)\s*\)\s*\.\s*assign\(", body):
+        who = mm2.group(1)
+        nm = "<name>" if who.startswith("var_name") else _resolve(h, consts, who, "getopts/report.rs")
+        writes.append((mm2.start(), nm, "assign", mm2.group(2)))
+    for mm2 in re.finditer(r"env\s*\.\s*variables\s*\.\s*unset\(\s*(\w+)\s*,\s*(?:Scope::)?(\w+)\s*\)\s*\?", body):
+        writes.append((mm2.start(), _resolve(h, consts, mm2.group(1), "getopts/report.rs"), "unset", mm2.group(2)))
+    writes.sort()
+    if len(re.findall(r"get_or_create_variable\(|variables\s*\.\s*unset\(", body)) != len(writes):
+        h.fail("variable: getopts/report.rs report: a variable write of a shape I do not understand")
+    if len(re.findall(r"\.map_err\([^;]*\)\s*\?\s*;", body)) != sum(1 for w in writes if w[2] == "assign"):
+        h.fail("variable: getopts/report.rs report: not every assignment ends in `.map_err(..)?;` (the first refusal must stop the rest)")
+    for w in writes:
+        if w[3] not in scopes:
+            h.fail(f"variable: getopts/report.rs: Scope::{w[3]} unknown")
+    out = []
+    out.append("/-- third pass — cd.rs `main` / cd/assign.rs: the variables written after the `chdir`, in order, with the "
+               "scope of `set_variable`'s `get_or_create_variable`; both are always attempted (`result1.max(result2).max(result3)`), "
+               "a successful assignment is followed by `export(true)`, a refused one reports `EXIT_STATUS_ASSIGN_ERROR` -/")
+    out.append("def cdWrites : List (String × String) := [" + ", ".join(f"({_lean_str(a)}, {_lean_str(b_)})" for a, b_ in cd_writes) + "]")
+    out.append(f"def cdAssignErrorStatus : Nat := {status}\n")
+    out.append("/-- getopts/report.rs `report`: the variable writes in source order (name, assign | unset, scope); "
+               "`<name>` = the operand naming the option variable; every one ends in `?` -/")
+    out.append("def getoptsWrites : List (String × String × String) := [" +
+               ", ".join(f"({_lean_str(w[1])}, {_lean_str(w[2])}, {_lean_str(w[3])})" for w in writes) + "]\n")
+    return out
+
+
 
 def variable_tables(h):
     consts = _constants(h)
@@ -618,6 +684,7 @@ def variable_tables(h):
     out.append("def commandTable : List (String × Bool × Bool) := [\n" +
                ",\n".join(f"  ({_lean_str(n)}, {b(p)}, {b(e)})" for n, p, e in cmds) + "]\n")
     out.extend(_builtin_tables(h, scopes))
+    out.extend(_cd_getopts(h, consts, scopes))
     h.write("VariableTables", "\n".join(out))
 
 
